@@ -199,19 +199,29 @@ def eval_mnemonic(case):
 
 
 def eval_determinism(case):
+    """Valid mnemonic, every curve: accepted (acceptance clause) and the same key on every call (determinism)."""
     from pytezos.crypto.key import Key
     words, pw, email, curve = case['words'], case['passphrase'], case['email'], case['curve']
     tag = f'curve={curve}'
-    try:
-        ks = [Key.from_mnemonic(' '.join(words), passphrase=pw, email=email, curve=curve.encode()),
-              Key.from_mnemonic(list(words), passphrase=pw, email=email, curve=curve.encode()),
-              Key.from_mnemonic(' '.join(words), passphrase=pw, email=email, curve=curve.encode(), validate=False)]
-    except Exception as e:  # noqa
-        return [_res(O_MN_DET, False, 'from_mnemonic raised ' + CC.exc_text(e) + ' on a valid mnemonic', tag + ' raises')]
-    ids = {_ident(k) for k in ks}
-    pkh = {k.public_key_hash() for k in ks}
-    return [_res(O_MN_DET, len(ids) == 1 and len(pkh) == 1,
-                 f'three derivations from the same (mnemonic, email, passphrase) gave {sorted(pkh)}', tag)]
+    calls = [lambda: Key.from_mnemonic(' '.join(words), passphrase=pw, email=email, curve=curve.encode()),
+             lambda: Key.from_mnemonic(list(words), passphrase=pw, email=email, curve=curve.encode()),
+             lambda: Key.from_mnemonic(' '.join(words), passphrase=pw, email=email, curve=curve.encode(), validate=False)]
+    outs = []
+    for c in calls:
+        try:
+            k = c()
+            outs.append(('key', _ident(k), k.public_key_hash()))
+        except Exception as e:  # noqa
+            outs.append(('raised', CC.exc_text(e), type(e).__name__))
+    res = []
+    rejected = [o for o in outs if o[0] == 'raised']
+    res.append(_res(O_MN_KEY, not rejected,
+                    f'from_mnemonic(curve={curve}) rejects a BIP-39 valid mnemonic ({" ".join(words)[:50]}.., passphrase {pw!r}, '
+                    f'email {email!r}): {rejected[0][1] if rejected else ""}',
+                    f'{tag} valid-mnemonic-rejected {rejected[0][2] if rejected else ""}'))
+    res.append(_res(O_MN_DET, len(set(outs)) == 1,
+                    f'three derivations from the same (mnemonic, email, passphrase) differ: {[o[2] for o in outs]}', tag))
+    return res
 
 
 def eval_case(case):
